@@ -33,7 +33,7 @@ ANCHORS = ['Bits.__str__', 'Bits._repr', 'Bits.__repr__', 'ConstBitStream.__repr
            'Bits._format_bits', 'Bits._process_pp_tokens', 'Bits._chars_per_group', 'Bits._bits_per_char',
            'Bits.pp', 'Array.__repr__', 'Array.pp', 'hex_bits2chars', 'oct_bits2chars', 'bin_bits2chars']
 REQUIRED_OPS = ['str', 'Bits(str)', 'repr', 'eval(repr)', 'pp', 'Array.repr', 'eval(Array.repr)', 'Array.pp']
-MIN_EVALS = {'quick': 30000, 'thorough': 400000}
+MIN_EVALS = {'quick': 100000, 'thorough': 2000000}
 ASSUMPTIONS = [
     'pp scope is bin/hex/oct only; pp may raise ValueError exactly when the digits are not expressible '
     '(only "must print when expressible" and "what is printed is faithful" are enforced)',
